@@ -436,7 +436,7 @@ func forbidden(c cellT, shape string) string {
 	return base
 }
 
-var stringPool = []string{"a", "abc", "x-y_z", "A.b", "a b", "12", "true", "é", "a:b", "it's", "(x)", "a*b", "50%", "q?", "a/b", "a,b", "k=v", "a;b", "a|b", "[x]", "~t", "#h", "+p"}
+var stringPool = []string{"a", "abc", "x-y_z", "A.b", "a b", "12", "true", "é", "a:b", "it's", "(x)", "a*b", "50%", "q?", "a/b", "a,b", "k=v", "a;b", "a|b", "[x]", "~t", "#h", "+p", "p", "pp", "p1", "pa-p"}
 
 func legalStrings(c cellT, shape string) []string {
 	bad := forbidden(c, shape)
